@@ -11,7 +11,7 @@ RULE = ('data::encodation_plan and data::encode_data on the same structured inpu
         'lengths included); the plan is checked for shape, its non-ASCII modes with at least one character are compared with the '
         'latches the independent reference decoder finds in the output, and the symbol is compared with the one predicted from the '
         'planner cost (hook); non-trivial = plan with a non-ASCII mode; codec-constant families as in C02')
-THEOREMS = 'C18_plan_shape, C18_sorters, C18_encodation_plan, C18_plan_exists'
+THEOREMS = 'C18_plan_shape, C18_sorters, C18_encodation_plan, C18_plan_exists, C18_plan_aligned'
 ASSUMPTIONS = ['predicted codeword count = ceil(cost of the selected plan) read through the cfg(datamatrix_verif) hook',
                'refdec.py is an independent reading of ISO/IEC 16022 5.2']
 MODE_BY_INDEX = {0: 'Ascii', 1: 'Base256', 2: 'Edifact', 3: 'X12', 4: 'C40', 5: 'Text'}
